@@ -681,7 +681,7 @@ func plRunFree(job plJob) (res plResult) {
 		}
 	}
 	if job.Mirror != "" && ad.mirror != nil {
-		defer ad.mirror(job.Mirror)()
+		ad.mirror(job.Mirror) // set before any worker runs and never reset: the workers read the flag without synchronisation
 	}
 	for n := 0; n < job.Workers; n++ {
 		ad.start(make(chan struct{}))
